@@ -1,9 +1,10 @@
 // utils::merge::<ValueIter as Iterator>::next — the k-way merge of sorted value streams through a
 // 50 000-base window of f64 sums.  The property (C15): the output is sorted, non-overlapping, and
 // its value at every base is the sum of the inputs' values at that base; bases are absent where no
-// input has data or the sum is zero.  `next` is cut into four pieces, each under its own contract
-// (A: one section's accumulation into the window, B: run-length encoding, C: insert_into_queue,
-// D: the skeleton of `next` with A, B replaced by calls); interface predicates in spec.rs.
+// input has data or the sum is zero.  `next` is cut into five pieces, each under its own contract
+// (A: one section's accumulation into the window, A': the `for` over the sections with its body
+// replaced by a call of A, B: run-length encoding, C: insert_into_queue, D: the skeleton of `next`
+// with A' and B replaced by calls); interface predicates in spec.rs.  Every piece is proved.
 use vstd::prelude::*;
 use vstd::std_specs::ops::*;
 use vstd::std_specs::convert::FromSpec;
@@ -503,29 +504,87 @@ spec fn all_sec_ok(ps: Seq<Seq<Result<Value, MergeError>>>, cs: int) -> bool {
 }
 spec const MAXHALF: int = 0x7fff_ffff_ffff_ffff;
 
-/// ASSUMED composition of piece A over the sections (R9: the enclosing `for (section, last) in &mut
-/// self.sections` is dropped): `next_section` is applied to every section in order, threading data,
-/// max_data_len, max_sections, all_none; the first error stops the loop.  Every clause below is the
-/// fold of the corresponding proved clause of `next_section`.
-#[verifier::external_body]
-fn accumulate_sections<T: Cell>(sections: &mut Vec<(VIter, Option<Value>)>, data: &mut Vec<T>, current_start: u32, max_data_len: usize, max_sections: usize, all_none: bool, self_error: &mut bool) -> (r: (usize, usize, bool, Option<MergeError>, Ghost<Seq<int>>))
-    requires
-        old(data)@.len() == DATA_SIZE,
-        all_sec_ok(pends(old(sections)@), current_start as int),
-        max_sections as int + total_len(pends(old(sections)@)) < usize::MAX as int,
+// ---------------- the fold of piece A over the sections (proved: `accumulate_sections` in unit.rs.tpl) ----------------
+/// where a section stops in the window ending at `wend`: the first item at or after j that is an error or
+/// a value reaching `wend` (the whole length when there is none)
+spec fn first_stop(p: Seq<Result<Value, MergeError>>, wend: int, j: int) -> int
+    decreases p.len() - j
+{
+    if j < 0 || j >= p.len() { p.len() as int }
+    else if p[j] is Err || p[j]->Ok_0.end >= wend { j }
+    else { first_stop(p, wend, j + 1) }
+}
+#[verifier::opaque]
+spec fn stop_of(p: Seq<Result<Value, MergeError>>, wend: int) -> int { first_stop(p, wend, 0) }
+/// the stop index of every section (a function of what the sections had pending before the window)
+spec fn stops_of(pre: Seq<Seq<Result<Value, MergeError>>>, wend: int) -> Seq<int> {
+    Seq::new(pre.len(), |i: int| stop_of(pre[i], wend))
+}
+proof fn lemma_first_stop(p: Seq<Result<Value, MergeError>>, wend: int, j: int)
+    requires 0 <= j <= p.len(), forall|i: int| 0 <= i < j ==> (#[trigger] p[i]) is Ok && p[i]->Ok_0.end < wend,
+    ensures is_stop(p, first_stop(p, wend, j), wend),
+    decreases p.len() - j,
+{
+    if j < p.len() && !(p[j] is Err || p[j]->Ok_0.end >= wend) { lemma_first_stop(p, wend, j + 1); }
+}
+/// every section has a stop index (the ghost argument `k` of next_section exists)
+proof fn lemma_stop_of(p: Seq<Result<Value, MergeError>>, wend: int)
+    ensures is_stop(p, stop_of(p, wend), wend),
+{
+    reveal(stop_of);
+    lemma_first_stop(p, wend, 0);
+}
+/// a section that stops without an error looks at no more values than it has pending
+proof fn lemma_n_taken_le(p: Seq<Result<Value, MergeError>>, k: int, wend: int)
+    requires is_stop(p, k, wend),
+    ensures 0 <= n_taken(p, k) <= p.len(),
+{ }
+/// the window folds, one section (the only place where they are unfolded)
+proof fn lemma_win_zero(pre: Seq<Seq<Result<Value, MergeError>>>, ks: Seq<int>, d0: Seq<f64>, m0: int, cs: int)
+    ensures win_data(pre, ks, 0, d0, cs) == d0, win_mdl(pre, ks, 0, m0, cs) == m0,
+{
+    reveal_with_fuel(win_data, 1); reveal_with_fuel(win_mdl, 1);
+}
+proof fn lemma_win_step(pre: Seq<Seq<Result<Value, MergeError>>>, ks: Seq<int>, i: int, d0: Seq<f64>, m0: int, cs: int)
+    requires 0 <= i,
     ensures
-        final(data)@.len() == DATA_SIZE, max_data_len <= DATA_SIZE ==> r.0 <= DATA_SIZE,
-        current_start as int + max_data_len as int <= u32::MAX as int ==> current_start as int + r.0 as int <= u32::MAX as int,
-        r.3 is Some ==> *final(self_error),
-        r.3 is None ==> *final(self_error) == *old(self_error),
-        r.3 is None ==> stops_ok(pends(old(sections)@), r.4@, current_start as int + DATA_SIZE as int),
-        r.3 is None ==> pends(final(sections)@) == next_pends(pends(old(sections)@), r.4@),
-        r.3 is None ==> all_sec_ok(pends(final(sections)@), current_start as int + DATA_SIZE as int),
-        r.3 is None ==> c64(final(data)@) == win_data(pends(old(sections)@), r.4@, old(sections)@.len() as int, c64(old(data)@), current_start as int),
-        r.3 is None ==> r.0 as int == win_mdl(pends(old(sections)@), r.4@, old(sections)@.len() as int, max_data_len as int, current_start as int),
-        r.3 is None ==> r.2 == (all_none && none_taken(pends(old(sections)@), r.4@)),
-        r.3 is None ==> r.1 as int <= max_sections as int + total_len(pends(old(sections)@)),
-{ unimplemented!() }
+        win_data(pre, ks, i + 1, d0, cs) == add_vals(win_data(pre, ks, i, d0, cs), taken(pre[i], ks[i]), cs),
+        win_mdl(pre, ks, i + 1, m0, cs) == touch_ends(win_mdl(pre, ks, i, m0, cs), taken(pre[i], ks[i]), cs),
+{
+    reveal_with_fuel(win_data, 1); reveal_with_fuel(win_mdl, 1);
+}
+/// total_len over a prefix: one more section; never more than the whole
+proof fn lemma_total_len_take(ps: Seq<Seq<Result<Value, MergeError>>>, i: int)
+    requires 0 <= i < ps.len(),
+    ensures total_len(ps.subrange(0, i + 1)) == total_len(ps.subrange(0, i)) + ps[i].len(),
+{
+    assert(ps.subrange(0, i + 1).drop_last() =~= ps.subrange(0, i));
+    assert(ps.subrange(0, i + 1).last() == ps[i]);
+}
+proof fn lemma_total_len_mono(ps: Seq<Seq<Result<Value, MergeError>>>, i: int)
+    requires 0 <= i <= ps.len(),
+    ensures 0 <= total_len(ps.subrange(0, i)) <= total_len(ps),
+    decreases ps.len() - i,
+{
+    if i < ps.len() {
+        lemma_total_len_take(ps, i);
+        lemma_total_len_mono(ps, i + 1);
+        lemma_total_len_nonneg(ps.subrange(0, i));
+    } else {
+        assert(ps.subrange(0, i) =~= ps);
+        lemma_total_len_nonneg(ps);
+    }
+}
+proof fn lemma_total_len_nonneg(ps: Seq<Seq<Result<Value, MergeError>>>)
+    ensures 0 <= total_len(ps),
+    decreases ps.len(),
+{
+    if ps.len() > 0 { lemma_total_len_nonneg(ps.drop_last()); }
+}
+/// no section among the first i looked at a value
+spec fn none_taken_upto(pre: Seq<Seq<Result<Value, MergeError>>>, ks: Seq<int>, i: int) -> bool {
+    forall|j: int| 0 <= j < i ==> taken(#[trigger] pre[j], ks[j]).len() == 0
+}
 
 // ---------------- the state invariant of ValueIter, in pieces ----------------
 spec fn opt_v(o: Option<Value>) -> Seq<Value> { if o is Some { seq![o->Some_0] } else { Seq::empty() } }
@@ -1009,6 +1068,139 @@ fn next_section(section: &mut VIter, last: &mut Option<Value>, data: &mut Vec<f6
 }
 
 // =====================================================================================
+// A'. the iteration of A over the sections: `'sections: for (section, last) in &mut self.sections { .. }`.
+//    Cut from `fn next` by three presubs: everything before the `for` becomes the signature (the loop's
+//    free variables as parameters), the `for` HEADER IS KEPT, its body (= piece A, proved above) is
+//    replaced by one call of `next_section` with this iteration's `(section, last)`, threading the
+//    accumulators and returning at the first error; everything behind the `for`'s closing brace is dropped.
+//    The kept header is then turned into an index loop by unit-local subs (R7 has no `&mut V` / tuple
+//    pattern form): `&mut self.sections` / `self.sections.iter_mut()` -> `for i__ in 0..n__ { let (section,
+//    last) = &mut sections[i__];`; a trailing `.rev()`, `.skip(K)`, `.take(K)` changes the element index /
+//    the index range accordingly (so that such an edit is judged by the invariants below); any other
+//    header is refused.  The contract is the one D uses at its call; nothing in it is assumed any more.
+// =====================================================================================
+fn accumulate_sections(sections: &mut Vec<(VIter, Option<Value>)>, data: &mut Vec<f64>, current_start: u32, max_data_len0: usize, max_sections0: usize, all_none0: bool, self_error: &mut bool) -> (r: (usize, usize, bool, Option<MergeError>, Ghost<Seq<int>>))
+    requires
+        
+        old(data)@.len() == DATA_SIZE,
+        all_sec_ok(pends(old(sections)@), current_start as int),
+        max_sections0 as int + total_len(pends(old(sections)@)) < usize::MAX as int,
+    ensures
+        
+        final(data)@.len() == DATA_SIZE,
+        
+        max_data_len0 <= DATA_SIZE ==> r.0 <= DATA_SIZE,
+        
+        current_start as int + max_data_len0 as int <= u32::MAX as int ==> current_start as int + r.0 as int <= u32::MAX as int,
+        
+        r.3 is Some ==> *final(self_error),
+        
+        r.3 is None ==> *final(self_error) == *old(self_error),
+        
+        r.3 is None ==> stops_ok(pends(old(sections)@), r.4@, current_start as int + DATA_SIZE as int),
+        
+        r.3 is None ==> pends(final(sections)@) == next_pends(pends(old(sections)@), r.4@),
+        
+        r.3 is None ==> all_sec_ok(pends(final(sections)@), current_start as int + DATA_SIZE as int),
+        
+        r.3 is None ==> c64(final(data)@) == win_data(pends(old(sections)@), r.4@, old(sections)@.len() as int, c64(old(data)@), current_start as int),
+        
+        r.3 is None ==> r.0 as int == win_mdl(pends(old(sections)@), r.4@, old(sections)@.len() as int, max_data_len0 as int, current_start as int),
+        
+        r.3 is None ==> r.2 == (all_none0 && none_taken(pends(old(sections)@), r.4@)),
+        
+        r.3 is None ==> r.1 as int <= max_sections0 as int + total_len(pends(old(sections)@)),
+{
+        let mut max_data_len = max_data_len0;
+        let mut max_sections = max_sections0;
+        let mut all_none = all_none0;
+        let ghost pre = pends(sections@);
+        let ghost cs = current_start as int;
+        let ghost wend = current_start as int + DATA_SIZE as int;
+        let ghost ks = stops_of(pre, wend);
+        let ghost d0 = c64(data@);
+        let ghost m0 = max_data_len0 as int;
+        let ghost s0 = max_sections0 as int;
+        proof {
+            lemma_win_zero(pre, ks, d0, m0, cs);
+            assert(pre.subrange(0, 0) =~= Seq::<Seq<Result<Value, MergeError>>>::empty());
+        }
+
+            let n__ = sections.len();
+ for i__ in 0..n__ 
+            invariant
+                
+                pre == pends(old(sections)@), cs == current_start as int, wend == cs + DATA_SIZE as int, ks == stops_of(pre, wend),
+                d0 == c64(old(data)@), m0 == max_data_len0 as int, s0 == max_sections0 as int,
+                n__ == old(sections)@.len(), sections@.len() == n__, 0 <= i__ <= n__,
+                all_sec_ok(pre, cs), s0 + total_len(pre) < usize::MAX as int,
+                data@.len() == DATA_SIZE,
+                *self_error == *old(self_error),
+                max_data_len0 <= DATA_SIZE ==> max_data_len <= DATA_SIZE,
+                cs + max_data_len0 as int <= u32::MAX as int ==> cs + max_data_len as int <= u32::MAX as int,
+                
+                forall|j: int| 0 <= j < i__ ==> is_stop(#[trigger] pre[j], ks[j], wend) && !stop_is_err(pre[j], ks[j]),
+                
+                forall|j: int| 0 <= j < i__ ==> pend((#[trigger] sections@[j]).1, sections@[j].0) == pre[j].subrange(ks[j], pre[j].len() as int),
+                forall|j: int| 0 <= j < i__ ==> sec_ok(pend((#[trigger] sections@[j]).1, sections@[j].0), wend),
+                
+                forall|j: int| i__ <= j < n__ ==> (#[trigger] sections@[j]) == old(sections)@[j],
+                
+                c64(data@) == win_data(pre, ks, i__ as int, d0, cs),
+                max_data_len as int == win_mdl(pre, ks, i__ as int, m0, cs),
+                all_none == (all_none0 && none_taken_upto(pre, ks, i__ as int)),
+                max_sections as int <= s0 + total_len(pre.subrange(0, i__ as int)),
+            decreases
+                
+                n__ - i__,
+{
+
+                let ghost before = sections@;
+                let ghost i = i__ as int;
+ let (section, last) = &mut sections[i__];
+
+                let ghost p = pend(*last, *section);
+                let ghost k = stop_of(p, wend);
+                let ghost ms_in = max_sections as int;
+                proof {
+                    // this iteration's pair is section i, still as it was at entry: what it has pending is pre[i]
+                    assert(p == pends(before)[i]); 
+                    assert(p == pre[i]);
+                    assert(sec_ok(pre[i], cs)); 
+                    lemma_stop_of(p, wend);
+                    assert(k == ks[i]); 
+                    lemma_total_len_take(pre, i);
+                    lemma_total_len_mono(pre, i + 1);
+                    assert(ms_in + p.len() < usize::MAX as int); 
+                }
+                let sec__ = next_section(section, last, data, current_start, max_data_len, max_sections, all_none, self_error, Ghost(stop_of(pend(*last, *section), current_start as int + DATA_SIZE as int)));
+                max_data_len = sec__.0;
+                max_sections = sec__.1;
+                all_none = sec__.2;
+                if let Some(e) = sec__.3 {
+                    return (max_data_len, max_sections, all_none, Some(e), Ghost(ks));
+                }
+            
+                proof {
+                    // no error in section i: the state after i + 1 sections
+                    assert(!stop_is_err(p, k)); 
+                    lemma_n_taken_le(p, k, wend);
+                    lemma_win_step(pre, ks, i, d0, m0, cs);
+                    assert(sections@[i] == (*section, *last)); 
+                    assert(forall|j: int| 0 <= j < n__ && j != i ==> sections@[j] == before[j]);
+                    assert(none_taken_upto(pre, ks, i + 1) == (none_taken_upto(pre, ks, i) && taken(pre[i], ks[i]).len() == 0)); 
+                }
+}
+
+        proof {
+            assert(pre.subrange(0, n__ as int) =~= pre); 
+            assert(pends(sections@) =~= next_pends(pre, ks));
+            assert(none_taken_upto(pre, ks, n__ as int) == none_taken(pre, ks));
+        }
+        (max_data_len, max_sections, all_none, None, Ghost(ks))
+}
+
+// =====================================================================================
 // B. run-length encoding of data[..max_data_len] into next_sections.  Kept text of `next`: from
 //    `let mut next_sections: Vec<Value> = Vec::with_capacity(..)` up to (not including)
 //    `let insert_into_queue = ..`; everything before and after is cut away by the two presubs.
@@ -1225,7 +1417,7 @@ fn insert_into_queue(queue: &mut Vec<Value>, next_val: Value)
 
 // =====================================================================================
 // D. the skeleton of `next`: head (error flag, draining the buffered values), the window loop with
-//    phase A replaced by `accumulate_sections` (assumed fold of the proved `next_section`), phase B
+//    phase A replaced by `accumulate_sections` (piece A' above: the proved fold of `next_section`), phase B
 //    by the proved `rle`, the closure definition removed (the lifted `insert_into_queue` above is
 //    what the real call `insert_into_queue(&mut next_sections, last)` now resolves to), and the tail.
 //    Ghost history `hist` (added field): windows computed so far, values handed out so far.
